@@ -8,6 +8,9 @@ use vcore::findings::Findings;
 static ALLOC: vrt::alloc::Counting = vrt::alloc::Counting;
 
 mod c01;
+mod c03;
+mod c04;
+mod c07;
 mod common;
 
 pub struct Ctx {
@@ -61,6 +64,9 @@ fn main() {
     };
     let code = match id.as_str() {
         "C01" => c01::run(&ctx),
+        "C03" => c03::run(&ctx),
+        "C04" => c04::run(&ctx),
+        "C07" => c07::run(&ctx),
         _ => {
             eprintln!("unknown check {}", id);
             2
